@@ -429,6 +429,8 @@ enum Ev {
     CnameAt(Nm, u32), CutAt(Nm, u32, Option<u32>, Option<u32>), Regular(Nm), Commit, CommitBump, Drop,
     /// a data operation through the root handle kept from the session that the last commit/drop ended
     Stale(Box<Ev>),
+    /// the version numbers of all entries stored anywhere in the tree (from the Debug output)
+    Dump,
 }
 fn oword(x: &Option<u32>) -> String { x.map_or("-".to_string(), |x| x.to_string()) }
 impl Ev {
@@ -441,6 +443,7 @@ impl Ev {
             Ev::CutAt(n, ns, ds, g) => format!("ct:{}:{}:{}:{}", n.word(), ns, oword(ds), oword(g)),
             Ev::Regular(n) => format!("rg:{}", n.word()), Ev::Commit => "c".into(), Ev::CommitBump => "cb".into(), Ev::Drop => "d".into(),
             Ev::Stale(e) => format!("s:{}", e.word()),
+            Ev::Dump => "dump".into(),
         }
     }
     fn is_data(&self) -> bool { matches!(self, Ev::Update(..) | Ev::Remove(..) | Ev::Touch(..) | Ev::RemoveAll | Ev::RemoveAllAt(..) | Ev::CnameAt(..) | Ev::CutAt(..) | Ev::Regular(..)) }
@@ -491,6 +494,19 @@ impl Content {
         v
     }
     fn any_wildcard(&self) -> bool { self.rr.keys().any(|k| k.0 .0.contains(&1)) || self.sp.keys().any(|k| k.0.contains(&1)) }
+}
+
+/// (sorted version numbers of every Versioned entry in the tree, current version) from `{:?}` of the zone
+fn stored_versions(zone: &Zone) -> (Vec<u32>, u32) {
+    let s = format!("{:?}", zone);
+    let cut = s.find(", update_lock:").expect("Debug of ZoneApex");
+    let nums = |mut rest: &str| { let mut out = vec![]; while let Some(q) = rest.find("(Version(Serial(") { rest = &rest[q + 16..]; let e = rest.find(')').unwrap(); out.push(rest[..e].parse::<u32>().unwrap()); rest = &rest[e..]; } out };
+    let mut vs = nums(&s[..cut]);
+    vs.sort();
+    let tail = &s[cut..];
+    let c = tail.find("current: (Version(Serial(").expect("Debug of ZoneVersions");
+    let cur = nums(&tail[c + 9..])[0];
+    (vs, cur)
 }
 
 type Snap = (BTreeMap<(Nm, u16), String>, Vec<(String, u16, u32)>);
@@ -732,6 +748,7 @@ impl Sys {
                     self.pending = self.committed.clone();
                 }
             }
+            Ev::Dump => { let (vs, _) = stored_versions(&self.zone); obs = Some(format!("V[{}]", vs.iter().map(|v| v.to_string()).collect::<Vec<_>>().join(","))); }
             Ev::Stale(_) if self.skip_stale => {}
             Ev::Stale(d) => {
                 obs = Some(if self.stale_root.is_none() { "snone".to_string() } else {
@@ -755,6 +772,15 @@ impl Sys {
         for (r, h) in &self.readers {
             let now = self.snapshot(h.rd.as_ref(), fails);
             self.compare(&h.snap, &now, "snapshot_changed", &format!("reader {} after {}", r, e.word()), fails);
+        }
+        // no entry of a version above the current one is stored anywhere in the tree, except
+        // entries of current+1 while a writer is alive
+        {
+            let (vs, cur) = stored_versions(&self.zone);
+            let lim = if self.writer.is_some() { cur.wrapping_add(1) } else { cur };
+            if let Some(v) = vs.iter().find(|v| **v > lim) {
+                fails.push(Fail { step: 0, class: "marker_above_current", detail: format!("after {}: an entry of version {} is stored, current is {}, writer {}", e.word(), v, cur, if self.writer.is_some() { "alive" } else { "gone" }) });
+            }
         }
         match e {
             Ev::Drop => {
@@ -815,7 +841,7 @@ fn run_trace(out: &mut Out, inits: &[Init], evs: &[Ev], universe: Vec<Nm>, kind:
         }
         (obs, fails)
     });
-    let classes = ["snapshot_changed", "commit_not_atomic", "abort_visible", "walk_mismatch", "any_not_in_version", "diff_serials_not_versions",
+    let classes = ["snapshot_changed", "commit_not_atomic", "abort_visible", "walk_mismatch", "any_not_in_version", "diff_serials_not_versions", "marker_above_current",
         "second_writer_granted", "writer_lock_stuck", "stale_node_handle_write"];
     match r {
         Ok((obs, fails)) => {
@@ -862,6 +888,23 @@ fn gen_trace(r: &mut Rng, names: &[Nm], targets: &[Nm], max_len: usize, stale: b
             let n = r.pick(targets).clone();
             evs.push(Ev::Stale(Box::new(gen_data(r, n, val))));
             continue;
+        }
+        if r.chance(1, 25) { evs.push(Ev::Dump); continue; }
+        if writer && open && !targets.is_empty() && r.chance(1, 30) {
+            // remove all data of a name in this version, abandon the version, and let the next
+            // writer reuse the version number for something at or below that name
+            let n = r.pick(targets).clone();
+            if !n.0.is_empty() {
+                if r.chance(1, 2) { evs.push(Ev::RemoveAllAt(n.clone())); } else { for t in [T_A, T_TXT, T_AAAA] { evs.push(Ev::Remove(n.clone(), t)); } evs.push(Ev::Regular(n.clone())); }
+                evs.push(Ev::Dump); evs.push(Ev::Drop); evs.push(Ev::Dump);
+                if queued { queued = false; evs.push(Ev::WTake); } else { evs.push(Ev::WAcquire); }
+                evs.push(Ev::WOpen);
+                val += 1;
+                let below: Vec<&Nm> = names.iter().filter(|m| n.is_prefix_of(m)).collect();
+                evs.push(Ev::Update((*r.pick(&below)).clone(), T_TXT, val));
+                have_handle = true;
+                continue;
+            }
         }
         match r.below(20) {
             0..=2 => { if held.len() < 4 { let id = (0..4u32).find(|i| !held.contains(i)).unwrap(); held.push(id); evs.push(Ev::Acquire(id)); } }
